@@ -102,7 +102,16 @@ def _build_text(rng, msh9, ctrl, version, ec, struct, via_api, unicode_):
             if rng.random() < 0.7:
                 m.add_segment('PID')
                 m.pid.pid_5 = ec['COMPONENT'].join(['DOE', name])
-            variant = rng.randrange(3)
+            variant = rng.randrange(4)
+            alt_ok = True
+            if variant == 3:
+                # delimiters other than the message's own, given explicitly: the framing identity holds for
+                # them too (the frame that is sent is the ordinary one)
+                alt = {'FIELD': '!', 'COMPONENT': '@', 'REPETITION': '*', 'ESCAPE': '?', 'SUBCOMPONENT': '$'} \
+                    if m.encoding_chars.get('FIELD') != '!' else dict(STD_EC)
+                alt_ok = m.to_mllp(encoding_chars=alt) == '\x0b' + m.to_er7(encoding_chars=alt) + '\r' + '\x1c' + '\r' and \
+                    m.to_mllp(alt, True) == '\x0b' + m.to_er7(alt, True) + '\r' + '\x1c' + '\r'
+                variant = 0
             if variant == 0:
                 mllp, er7 = m.to_mllp(), m.to_er7()
             elif variant == 1:
@@ -110,7 +119,7 @@ def _build_text(rng, msh9, ctrl, version, ec, struct, via_api, unicode_):
             else:
                 e2 = m.encoding_chars
                 mllp, er7 = m.to_mllp(encoding_chars=e2), m.to_er7(encoding_chars=e2)
-            framing_ok = (mllp == '\x0b' + er7 + '\r' + '\x1c' + '\r')
+            framing_ok = alt_ok and (mllp == '\x0b' + er7 + '\r' + '\x1c' + '\r')
             return er7 + '\r', framing_ok
         except Exception:
             pass
